@@ -117,7 +117,9 @@ where
         let mut this = self.project();
         let mut sink = this.sink.as_mut();
 
-        ready!(sink.as_mut().poll_close(cx))?;
+        // The EOF block is written to the inner writer after the last data block, so the inner
+        // writer is only shut down once the EOF block was written.
+        ready!(sink.as_mut().poll_flush(cx))?;
 
         let mut inner = sink.get_mut().get_mut().get_mut();
 
@@ -131,6 +133,6 @@ where
             }
         }
 
-        Poll::Ready(Ok(()))
+        Pin::new(&mut inner).poll_shutdown(cx)
     }
 }
